@@ -5,8 +5,12 @@ import unicodedata as pyud
 from ufo import build, rat
 
 ID = "C05"
-PROOF_FILES = ["C05Order", "C05Quant", "C05Groups", "C05Ufo", "C05Merge", "C05Split", "C05Part", "C05Reg", "C05Together", "C05"]
-THEOREM = ("Ufo2ft.C05.C05_precedence / C05_ufo_value / C05_ufo_some / C05_ufo_none (first match of the sorted rules = rounded UFO value), "
+PROOF_FILES = ["C05Order", "C05Quant", "C05Groups", "C05Ufo", "C05Merge", "C05Split", "C05Part", "C05Reg", "C05Together", "C05",
+               "C05ApplyLookup", "C05ApplyMap", "C05ApplyProg", "C05ApplyBuckets", "C05ApplyParts", "C05ApplyCells", "C05ApplyRules",
+               "C05ApplyDet", "C05Apply", "C05ApplyEx"]
+THEOREM = ("Ufo2ft.C05.C05_end_to_end (applyKern (program ...) tag g1 g2 = quantize (ufoKern ...): the GPOS application semantics on the emitted "
+           "program gives the rounded UFO value, as placement too in right-to-left scripts), C05_marks_never_in_base_lookup; stages: "
+           "Ufo2ft.C05.C05_precedence / C05_ufo_value / C05_ufo_some / C05_ufo_none (first match of the sorted rules = rounded UFO value), "
            "sortPairs_sorted, firstMatch_minimal, quantize_near, mergeFix_apart / mergedSets_unique / mergeScripts_perm, "
            "split_count / split_where / split_sound, partition_sound / partition_disjoint / partition_complete, splitKerning_together, "
            "C05_register / C05_dflt")
@@ -23,10 +27,25 @@ RULE = ("random kerning fonts: repertoire drawn from Latin, Cyrillic, Greek, Ara
         "ones, plus digits / punctuation / a combining mark / alternates, same group and kerning generators - compiled with BOTH shipped "
         "writers (kernFeatureWriter and kernFeatureWriter2); for every script tag of the font (a tag missing from the ScriptList falls back "
         "to DFLT, as in a shaper) the adjustment applied to every ordered glyph pair of one script run must be the same in the two fonts; "
-        "non-trivial there = both fonts kern something.")
+        "non-trivial there = both fonts kern something. "
+        "Third request per font of stream 1 (op apply): the Lean GPOS application semantics `applyKern` (Spec/C05Apply.lean: feaLib's PairPos "
+        "layout - glyph pairs and enum pairs first-definition-wins in format 1, class pairs in format-2 subtables with ClassDefBuilder.canAdd "
+        "breaks, a format-2 subtable matches once the first glyph is covered -, lookups in emission order, adjustments add, rule-less "
+        "lookups are not built, unregistered tags fall back to DFLT) evaluated on the MODEL's program for every script tag (those of the "
+        "compiled ScriptList, those the writer registered, DFLT, and one tag registered nowhere) and every ordered glyph pair, against the "
+        "table the independent interpreter gpos.pair_adjust reads from the COMPILED font: any difference is a correspondence failure. The "
+        "driver also evaluates the decidable hypothesis bundle `e2eHyp` of C05_end_to_end for every (script, tag, g1, g2) and reports how "
+        "many triples it covers (evidence: main_theorem_hypotheses; info.e2e_met) - and, redundantly, that the conclusion holds on them.")
 ASSUMED = ["Unicode script / script-extension / bidi data and the GSUB closure are inputs (the model takes the implementation's classification; "
            "the property predicate uses an independent one computed from the stdlib unicodedata and the generated GSUB rules)",
-           "feaLib compiles the emitted statements as written (specific pairs before class pairs; first definition wins)",
+           "feaLib compiles the emitted statements as written (specific pairs before class pairs; first definition wins) - since op apply: "
+           "tied on every generated font (the Lean application semantics on the model's program == the interpreter on the compiled font)",
+           "C05_end_to_end: lookup flags (IgnoreMarks / mark filtering set) only decide which glyphs BETWEEN two glyphs are skipped; for an "
+           "adjacent pair they do not change which rule applies (C05_marks_never_in_base_lookup: no mark glyph is ever in a rule of an "
+           "IgnoreMarks lookup); default language system only (every declared language references the same lookups)",
+           "C05_end_to_end hypotheses (decidable, evaluated by the driver): wfKern, ctxOK (Common is the one 'Auto' script; all scripts of "
+           "a glyph have one direction), both glyphs of the script or neutral, the script's feature is written (featOn), distinct lookup "
+           "names (namesOK), and cellClean = the pair is outside the three known bidi-cell shapes (stated on the determining cell only)",
            "kernFeatureWriter2 (the second shipped writer) is not modelled: it is compared end-to-end with writer 1 on single-direction fonts "
            "(equality of the applied adjustments, evaluated by the Lean driver)",
            "wfKern (valid UFO 3 groups, distinct group names and kerning keys, no glyph named like a kerning group) for the UFO-value theorem; "
@@ -529,7 +548,15 @@ def _classify_agree2(r, bad):
     return {"shapes": ["writers-differ-rtl-cell-with-bidiL-or-neutral-property-glyph"]}
 
 
-LEVEL_TEXT = ("Proved (Lean, all inputs): KerningPair.__lt__ is a strict weak order and pairs.sort() yields a sorted permutation; the first "
+LEVEL_TEXT = ("Proved (Lean, all inputs): END-TO-END C05_end_to_end - for well-formed kerning, a Unicode context as fontTools supplies it, two "
+              "glyphs of one script (or neutral), a tag of that script whose feature is written, distinct lookup names, and the pair outside "
+              "the three known bidi-cell shapes (cellClean, on the determining cell only): applyKern(program(inputs), tag, g1, g2) = "
+              "(quantize(ufoKern g1 g2), the same as x-placement iff the script is right-to-left), where applyKern is a GPOS application "
+              "semantics (feaLib PairPos layout, first matching subtable, lookups add, DFLT fallback) tied to the compiled font on every run; "
+              "the composition goes through: first match of the sorted pairs = UFO value; at most one part / one direction cell of a pair "
+              "contains a glyph pair; all cells containing it are in one bucket = one lookup; the rules of a lookup are the bidi-filtered "
+              "sorted cells of its bucket; class rules of a lookup fit one format-2 subtable; the lookup is emitted once and referenced "
+              "under the tag (or under DFLT for neutral pairs); every other emitted lookup contributes zero. Stages: KerningPair.__lt__ is a strict weak order and pairs.sort() yields a sorted permutation; the first "
               "matching rule of the sorted list is a most specific matching rule; for well-formed kerning data (wfKern) it carries exactly "
               "quantize(ufoKern) - glyph-glyph, glyph-group, group-glyph, group-group, zero group-group entries aside - and no rule matches "
               "iff no entry (or a zero group-group entry) determines the pair; quantize is the nearest multiple of a positive step, halves up; "
@@ -543,7 +570,7 @@ LEVEL_TEXT = ("Proved (Lean, all inputs): KerningPair.__lt__ is a strict weak or
               "The full executable model of the kern writer is tied to the code structurally on every run, the UFO-semantics predicate is "
               "evaluated on the compiled GPOS for every glyph pair, and the two shipped writers are compared on single-direction fonts.")
 LEVEL_NOTE = ("Trusted: Lean kernel + standard axioms; correspondence harness incl. the independent GPOS interpreter; Unicode data as input; "
-              "partial: the composition of the proved pieces into one end-to-end theorem 'applyGPOS = ufoKern for every script' (DESIGN C05_once) "
-              "is not stated in Lean - the bidi filter (makeRules) and the bucket/registration chain are checked by correspondence only; the "
-              "bidi-ambiguous class cell is a known finding; writer 2 is compared end-to-end only and differs from writer 1 in right-to-left "
+              "the end-to-end theorem is stated over the Lean GPOS application semantics (Spec/C05Apply.lean), which is itself tied to the "
+              "compiled font by op apply (trusted: that tie is differential); lookup flags are assumed irrelevant for adjacent pairs; the "
+              "three bidi-cell shapes are excluded by the hypothesis cellClean and stay known findings; writer 2 is compared end-to-end only and differs from writer 1 in right-to-left "
               "fonts with digits or Arabic marks (known finding).")
